@@ -11,10 +11,20 @@ from common import coq_Q, coq_bool, coq_list
 KEP_TOL, KEP_MAXITER = 1e-10, 128
 
 
-def gen_spec(rng, n_max=8, allow_offsets=True, tier="quick"):
-    """A JSON-serialisable problem specification."""
+def gen_spec(rng, n_max=8, allow_offsets=True, tier="quick", full_frac=0.15):
+    """A JSON-serialisable problem specification.
+
+    Two regimes.  `nice` (most cases): measurement errors are powers of two in the data unit and every unit factor is
+    an exact binary number, so 1/err^2, s^2 and the prior variances are short dyadic rationals and the exact-rational
+    evaluation of the model stays small (about a second per case).  `full` (full_frac of the cases, at most 4 epochs):
+    arbitrary errors and unit factors (m/s priors for km/s data, trends per year, ...), full 53-bit inputs."""
+    nice = bool(rng.random() >= full_frac)
+    if not nice:
+        n_max = min(n_max, 4)
     n_poly = int(rng.integers(1, 4))
     n_off = int(rng.integers(0, 3)) if allow_offsets else 0
+    if not nice:
+        n_poly, n_off = min(n_poly, 2), min(n_off, 1)
     data_unit = ["km/s", "m/s"][int(rng.random() < 0.3)]
     scale = 1.0 if data_unit == "km/s" else 1000.0
     surveys = []
@@ -25,32 +35,35 @@ def gen_spec(rng, n_max=8, allow_offsets=True, tier="quick"):
         t = tstart + np.sort(np.round(rng.uniform(0, 60, n) * 64) / 64) + np.arange(n) / 64
         tstart = float(t.max()) + 3.0  # surveys in time order and disjoint (the known finding D5 is about interleaving)
         rv = np.round(rng.normal(0, 12, n) * 256) / 256 * scale
-        err = (np.round(rng.uniform(0.2, 3, n) * 128) / 128 + 1 / 128) * scale
+        if nice:
+            err = 2.0 ** rng.integers(-2, 3, n) * (1.0 if data_unit == "km/s" else 1024.0)
+        else:
+            err = (np.round(rng.uniform(0.2, 3, n) * 128) / 128 + 1 / 128) * scale
         surveys.append(dict(t=(base + t).tolist(), rv=rv.tolist(), err=err.tolist()))
     kprior = ["default", "custom"][int(rng.random() < 0.35)]
-    vel_units = ["km/s", "m/s"]
+    vel_units = ["km/s", "m/s"] if (not nice or data_unit == "m/s") else ["km/s"]
     P_unit = ["d", "yr"][int(rng.random() < 0.35)]
-    P0 = [(1.0, "yr"), (128.0, "d"), (2048.0, "h"), (0.25, "yr")][int(rng.integers(0, 4))]
+    P0 = [(1.0, "yr"), (128.0, "d"), (3072.0, "h"), (0.25, "yr")][int(rng.integers(0, 4))]
     q = lambda x, m=64: float(np.round(x * m) / m)
     lin = []
     names = ["K"] + [f"v{i}" for i in range(n_poly)]
     for i, nm in enumerate(names):
-        un = vel_units[int(rng.integers(0, 2))]
+        un = vel_units[int(rng.integers(0, len(vel_units)))]
         f = 1.0 if un == "km/s" else 1000.0
         if nm == "K":
             lin.append(dict(name=nm, mu=q(rng.normal(0, 3)) * f if kprior == "custom" else 0.0, std=q(rng.uniform(2, 40)) * f, unit=un))
         else:
             k = int(nm[1:])
-            tun = ["d", "yr"][int(rng.integers(0, 2))] if k > 0 else None
+            tun = (["d", "yr"][int(rng.integers(0, 2))] if not nice else "d") if k > 0 else None
             tf = 1.0 if tun in (None, "d") else 365.25**k
             lin.append(dict(name=nm, mu=q(rng.normal(0, 5 if k == 0 else 0.02), 1024) * f * tf, std=q(rng.uniform(1, 60) if k == 0 else rng.uniform(0.005, 0.2), 1024) * f * tf,
                             unit=un if k == 0 else f"{un} / {tun}{k if k > 1 else ''}"))
     offs = []
     for i in range(1, n_off + 1):
-        un = vel_units[int(rng.integers(0, 2))]
+        un = vel_units[int(rng.integers(0, len(vel_units)))]
         f = 1.0 if un == "km/s" else 1000.0
         offs.append(dict(name=f"dv0_{i}", mu=q(rng.normal(0, 4)) * f, std=q(rng.uniform(0.5, 20)) * f, unit=un))
-    sk_unit = vel_units[int(rng.integers(0, 2))]
+    sk_unit = vel_units[int(rng.integers(0, len(vel_units)))]
     sigma_K0 = q(rng.uniform(5, 60)) * (1.0 if sk_unit == "km/s" else 1000.0)
     max_K = [None, q(rng.uniform(20, 200))][int(rng.random() < 0.4)]
     # theta: P = P0[days] * (a / 2^k)^3 so that (P/P0)^(-2/3) is an exact rational
@@ -62,12 +75,14 @@ def gen_spec(rng, n_max=8, allow_offsets=True, tier="quick"):
     if not (0.05 < P < 5000):
         a, k = 3, 3
         P = P0_days * a**3 / 2 ** (3 * k)
+    if rng.random() < 0.5:  # arbitrary period: (P/P0)^(-2/3) is irrational, the model uses a certified double
+        P = float(np.round(np.exp(rng.uniform(np.log(0.3), np.log(3000))) * 4096) / 4096)
     e = q(rng.uniform(0, 0.9), 256)
     s_choice = int(rng.integers(0, 4))
     s = [0.0, q(rng.uniform(0.01, 0.2), 1024), q(rng.uniform(0.5, 3), 64), q(rng.uniform(20, 80), 16)][s_choice] * scale
     theta = dict(P=P, e=e, omega=q(rng.uniform(0, 6.25), 256), M0=q(rng.uniform(0, 6.25), 256), s=s)
     return dict(n_poly=n_poly, n_off=n_off, data_unit=data_unit, surveys=surveys, kprior=kprior, P_unit=P_unit, P0=P0, lin=lin, offs=offs,
-                sigma_K0=(sigma_K0, sk_unit), max_K=max_K, theta=theta, s_choice=s_choice)
+                sigma_K0=(sigma_K0, sk_unit), max_K=max_K, theta=theta, s_choice=s_choice, nice=nice)
 
 
 def build_problem(spec):
@@ -104,8 +119,8 @@ def build_problem(spec):
                     sk = spec["sigma_K0"]
                     pars["K"] = xu.with_unit(FixedCompanionMass("K", P=P, e=e, sigma_K0=sk[0] * u.Unit(sk[1]), P0=spec["P0"][0] * u.Unit(spec["P0"][1]), **kw), u.Unit(sk[1]))
                 else:
-                    pars[p["name"]] = xu.with_unit(pm.Normal(p["name"], p["mu"], p["std"]), un)
-            offs = [xu.with_unit(pm.Normal(o["name"], o["mu"], o["std"]), u.Unit(o["unit"])) for o in spec["offs"]]
+                    pars[p["name"]] = xu.with_unit(pm.Normal(p["name"], np.array(p["mu"], dtype="f8"), np.array(p["std"], dtype="f8")), un)
+            offs = [xu.with_unit(pm.Normal(o["name"], np.array(o["mu"], dtype="f8"), np.array(o["std"], dtype="f8")), u.Unit(o["unit"])) for o in spec["offs"]]
             prior = JokerPrior(pars=pars, poly_trend=spec["n_poly"], v0_offsets=offs)
     th = spec["theta"]
     smp = JokerSamples(poly_trend=spec["n_poly"], n_offsets=spec["n_off"])
@@ -230,7 +245,15 @@ def kcase_term(spec, out):
     return (f"(mk_kcase {spec['n_poly']}%nat {spec['n_off']}%nat {coq_Q(out['t0'])} {qlist(out['rv'])} {qlist(out['ivar'])} {qmat(out['trend_M'])} "
             f"{coq_bool(spec['kprior'] == 'custom')} {coq_list([pp(t) for t in out['lin']])} {coq_list([pp(t) for t in out['offs']])} "
             f"({coq_Q(out['sigma_K0'][0])}, {coq_Q(out['sigma_K0'][1])}) ({coq_Q(out['P0'][0])}, {coq_Q(out['P0'][1])}, {coq_Q(out['P0'][2])}) "
-            f"({coq_Q(out['max_K'][0])}, {coq_Q(out['max_K'][1])}) {qlist(out['row'])} {qlist(out['kcol'])})")
+            f"({coq_Q(out['max_K'][0])}, {coq_Q(out['max_K'][1])}) {qlist(out['row'])} {qlist(out['kcol'])} {qlist(pow_candidates(out))})")
+
+
+def pow_candidates(out):
+    """double(s) for (P/P0)^(-2/3) with P/P0 the exact rational the model forms; Coq certifies them before use"""
+    from fractions import Fraction
+
+    x = Fraction(float(out["row"][0])) / (Fraction(float(out["P0"][0])) * Fraction(float(out["P0"][2])))
+    return [float(x) ** (-2 / 3.0)]
 
 
 def kobs_term(out):
